@@ -8,6 +8,7 @@ layout arithmetic — and the canonical text of the same document must yield non
 Lean model's receipt lists == the implementation's, in order, with positions.
 """
 import asyncio
+import json
 import os
 import random
 import re
@@ -315,6 +316,48 @@ def unfounded_advisories_tools(ctx, findings, fam):
                     ctx.count("tool_raised:" + type(e).__name__)
 
 
+# --- every word of a multi-word value is accounted for: in the value read, or in a receipt --------------------------------------
+_NONWORD_HEAD_BRACKET = re.compile(r'::[ ]*(?:-?\d[\dA-Za-z.+\-]*|"(?:[^"\\\\]|\\\\.)*"|true|false|null)(?: +[A-Za-z_][A-Za-z0-9_.\-]*)* +[A-Za-z_][A-Za-z0-9_.\-]*\[')
+
+
+def kf_adjacent_bracket_dropped(case) -> bool:
+    """C07N3: a multi-word value headed by a NUMBER / STRING / BOOLEAN / NULL / VERSION token whose last word is directly followed by a
+    bracket group (`K::3 mice[x]`): the group is consumed without capture and without any receipt."""
+    return case.get("family") == "multiword-accounting" and _NONWORD_HEAD_BRACKET.search(case["text"]) is not None
+
+
+CLASSES["kf_adjacent_bracket_dropped"] = kf_adjacent_bracket_dropped
+
+
+def multiword_accounting(ctx, findings):
+    """heads of every token kind x word tails with bracket groups adjacent / behind a space: each word written in the value must occur
+    in the value read back or in the original of some receipt (a rewrite may respell, it may not drop text silently)."""
+    heads = ["3", "-7", "2.5", "1e3", '"s"', '"a b"', "true", "false", "null", "1.2.3", "two", "Alpha_1"]
+    tails = ["mice", "mice[x]", "mice[x,y]", "mice[[x]]", "mice [x]", "blind mice[zz]", "blind  mice [zz]", "mice[x] more", "a b c[q9]"]
+    for f in findings:
+        if f["cls"] == "kf_adjacent_bracket_dropped":
+            pw = T.py_parse_warn(f["witness"]["text"])
+            blob = json.dumps(pw, ensure_ascii=False)
+            if "err" not in pw and f["witness"]["dropped"] not in blob:
+                ctx.known_reproduced.append((f, f"{f['witness']['dropped']!r} occurs neither in the value nor in any receipt"))
+            else:
+                ctx.notes.append(f"known finding {f['id']} no longer reproduces on its witness")
+    for h in heads:
+        for t in tails:
+            text = f"===D===\nK::{h} {t}\n===END===\n"
+            case = {"text": text, "family": "multiword-accounting"}
+            ctx.case(case)
+            ctx.count("family:multiword-accounting")
+            pw = T.py_parse_warn(text)
+            if "err" in pw:
+                continue      # a refusal drops nothing silently
+            blob = json.dumps([pw["doc"], pw["repairs"], pw["warnings"]], ensure_ascii=False)
+            words = [w for w in re.findall(r"[A-Za-z0-9_]+", (h.strip('"') + " " + t)) if w]
+            lost = [w for w in words if w not in blob]
+            if lost:
+                X.classify(ctx, findings, CLASSES, case, f"parse_with_warnings: the words {lost} of the value occur neither in the value read nor in any receipt", "multiword-text-dropped")
+
+
 def site_matrix(ctx, findings):
     """every rewrite kind alone through all four surfaces, with exact positions."""
     from octave_mcp.mcp.validate import ValidateTool
@@ -459,6 +502,7 @@ def run(ctx: vlib.Ctx):
             except BaseException as e:  # noqa: BLE001
                 ctx.count("tool_raised:" + type(e).__name__)
     site_matrix(ctx, findings)
+    multiword_accounting(ctx, findings)
     unfounded_advisories_tools(ctx, findings, fam)
     brace_sites(ctx, findings)
     brace_protected_toolroute(ctx, findings, [r["ctext"] for r in res[: ctx.budget(300, 3000)] if "err" not in r["c"]])
